@@ -368,6 +368,20 @@ fn cross_decode(ctx: &mut Ctx, rng: &mut Rng, handle: &DynamicColumnHandle, exp_
         if dl + 4 > col.len() { return; }
         col = &col[dl..col.len() - 4];
     }
+    if matches!(handle.column_type(), ColumnType::Bytes | ColumnType::Str) && raw.len() <= 8_000 && !exp_u64.is_empty() {
+        // the model splits the Str / Bytes column file itself (open_column_bytes) and reads the ordinals
+        let n = exp_u64.len();
+        let mut r2 = Rng(crate::report::fnv(&raw) ^ 0xC01F_11E7);
+        let docs = probe_indices(&mut r2, n, 300, 40);
+        let resp = ctx.model.ask(&format!("C08 colfilebytes {} {}", hex(&raw), nat_list(&docs.iter().map(|&d| d as u64).collect::<Vec<_>>())));
+        let flat_len: usize = exp_u64.iter().map(|r| r.len()).sum();
+        let dl = raw.len() - 4 - col.len();
+        let tail = format!(" {n} {flat_len};{}", rows_text(&docs.iter().map(|&d| exp_u64[d].clone()).collect::<Vec<_>>()));
+        if !(resp.starts_with(&format!("{dl} ")) && resp.ends_with(&tail)) {
+            modelv(ctx, "C08:bytes-column-file-cross-decode", format!("{what}: the model reading the real Str/Bytes column file gives {}, expected {dl} <card>{}", &resp[..resp.len().min(120)], &tail[..tail.len().min(120)]), case);
+        }
+        ctx.report.count("cross-decode:bytes-column-file");
+    }
     if col.len() < 5 { return; }
     let il = u32::from_le_bytes(col[col.len() - 4..].try_into().unwrap()) as usize;
     if il + 4 > col.len() || il == 0 {
@@ -377,6 +391,34 @@ fn cross_decode(ctx: &mut Ctx, rng: &mut Rng, handle: &DynamicColumnHandle, exp_
     let index = &col[..il];
     let values = &col[il..col.len() - 4];
     let n = exp_u64.len();
+    // the model opens the whole column file (index length, cardinality code, optional index, start
+    // offsets column, values column) and reads documents through its readers
+    if let (Some(ips), true) = (ip_flat.as_ref(), handle.column_type() == ColumnType::IpAddr && col.len() <= 8_000 && n > 0) {
+        let mut r2 = Rng(crate::report::fnv(col) ^ 0xC01F_11E6);
+        let docs = probe_indices(&mut r2, n, 300, 40);
+        let mut starts = Vec::with_capacity(n + 1);
+        let mut acc = 0usize;
+        for r in exp_u64 { starts.push(acc); acc += r.len(); }
+        starts.push(acc);
+        let resp = ctx.model.ask(&format!("C08 colfile128 {} {}", hex(col), nat_list(&docs.iter().map(|&d| d as u64).collect::<Vec<_>>())));
+        let row_txt = |d: usize| if starts[d] == starts[d + 1] { "-".to_string() } else { ips[starts[d]..starts[d + 1]].iter().map(|v| v.to_string()).collect::<Vec<_>>().join(",") };
+        let exp = format!("{} {n} {};{}", index[0], ips.len(), docs.iter().map(|&d| row_txt(d)).collect::<Vec<_>>().join("|"));
+        if resp != exp {
+            modelv(ctx, "C08:column-file-cross-decode", format!("{what}: the model reading the real u128 column file gives {}, expected {}", &resp[..resp.len().min(120)], &exp[..exp.len().min(120)]), case);
+        }
+        ctx.report.count("cross-decode:column-file-u128");
+    }
+    if handle.column_type() != ColumnType::IpAddr && col.len() <= 8_000 && n > 0 {
+        let mut r2 = Rng(crate::report::fnv(col) ^ 0xC01F_11E5);
+        let docs = probe_indices(&mut r2, n, 300, 40);
+        let resp = ctx.model.ask(&format!("C08 colfile {} {}", hex(col), nat_list(&docs.iter().map(|&d| d as u64).collect::<Vec<_>>())));
+        let flat_len: usize = exp_u64.iter().map(|r| r.len()).sum();
+        let exp = format!("{} {n} {flat_len};{}", index[0], rows_text(&docs.iter().map(|&d| exp_u64[d].clone()).collect::<Vec<_>>()));
+        if resp != exp {
+            modelv(ctx, "C08:column-file-cross-decode", format!("{what}: the model reading the real column file gives {}, expected {}", &resp[..resp.len().min(120)], &exp[..exp.len().min(120)]), case);
+        }
+        ctx.report.count("cross-decode:column-file");
+    }
     let non_null: Vec<u32> = (0..n).filter(|&d| !exp_u64[d].is_empty()).map(|d| d as u32).collect();
     let flat: Vec<u64> = exp_u64.iter().flatten().copied().collect();
     ctx.report.count(&format!("cross-decode:index-code:{}", index[0]));
@@ -434,6 +476,32 @@ fn cross_decode(ctx: &mut Ctx, rng: &mut Rng, handle: &DynamicColumnHandle, exp_
             }
             None => false,
         };
+        // range lookup on the compact values: model (range conversion incl. gaps) vs real
+        if ok && !ips.is_empty() && ips.len() <= 1500 {
+            if let Ok(DynamicColumn::IpAddr(col)) = handle.open() {
+                let mut r4 = Rng(crate::report::fnv(values) ^ 0x1b1b);
+                for round in 0..2 {
+                    let a = ips[r4.usize_below(ips.len())];
+                    let b = ips[r4.usize_below(ips.len())];
+                    let (mut lo, mut hi) = (a.min(b), a.max(b));
+                    if round == 1 { lo = lo.saturating_sub(r4.below(1000) as u128 + 1); hi = hi.saturating_add(r4.below(1000) as u128 + 1); }
+                    if r4.chance(1, 5) { lo = hi.saturating_add(1); hi = lo.saturating_add(r4.below(50) as u128); } // possibly inside a gap
+                    let s = r4.usize_below(ips.len());
+                    let e = s + r4.usize_below(ips.len() - s + 1);
+                    let mut pos = vec![];
+                    col.values.get_row_ids_for_value_range(Ipv6Addr::from_u128(lo)..=Ipv6Addr::from_u128(hi), s as u32..e as u32, &mut pos);
+                    let brute: Vec<u32> = (s..e).filter(|&i| ips[i] >= lo && ips[i] <= hi).map(|i| i as u32).collect();
+                    if pos != brute {
+                        oracle(ctx, "C08:ip-range-lookup", format!("{what}: get_row_ids_for_value_range({lo:#x}..={hi:#x}, {s}..{e}) = {} rows, brute force {}", pos.len(), brute.len()), case);
+                    }
+                    let m = ctx.model.ask(&format!("C08 range128 {} {lo} {hi} {s} {e}", hex(values)));
+                    if m != nat_list(&pos) {
+                        modelv(ctx, "C08:ip-range-lookup-model", format!("{what}: model compact-space range lookup ({lo:#x}..={hi:#x}, {s}..{e}) differs from the real result"), case);
+                    }
+                    ctx.report.count("columnar:ip-range-lookup-model-compared");
+                }
+            }
+        }
         if ok { ctx.report.count("cross-decode:codec:compact-space"); } else {
             modelv(ctx, "C08:ip-column-cross-decode", format!("{what}: model decode of the real compact-space column differs from the indexed addresses ({})", &r[..r.len().min(60)]), case);
         }
@@ -614,6 +682,26 @@ pub fn case_columnar(ctx: &mut Ctx, seed: u64, case: &Value) {
                 modelv(ctx, "C08:writer-model-rows", format!("{what}: model writer pipeline does not read back its own rows"), case);
             }
             ctx.report.count("columnar:writer-model-compared");
+            // Column::get_docids_for_value_range through the index: model (docid_range_to_rowids, matching
+            // rows, select_batch_in_place) vs real, on u64 columns
+            if let (DynamicColumn::U64(col), Some(r)) = (&dc, &u64rows) {
+                let flat: Vec<u64> = r.iter().flatten().copied().collect();
+                if !flat.is_empty() && num_docs > 0 {
+                    let mut r3 = Rng(seed ^ 0x7272_7272 ^ crate::report::fnv(c.name.as_bytes()));
+                    let a = flat[r3.usize_below(flat.len())];
+                    let b = flat[r3.usize_below(flat.len())];
+                    let (lo, hi) = (a.min(b), a.max(b));
+                    let s = r3.usize_below(num_docs);
+                    let e = s + r3.usize_below(num_docs - s + 1);
+                    let mut docs = vec![];
+                    col.get_docids_for_value_range(lo..=hi, s as u32..e as u32, &mut docs);
+                    let m = ctx.model.ask(&format!("C08 colrange {lo} {hi} {s} {e} {txt}"));
+                    if m != nat_list(&docs) {
+                        modelv(ctx, "C08:column-range-lookup-model", format!("{what}: model get_docids_for_value_range({lo}..={hi}, {s}..{e}) differs from the real result ({} docs)", docs.len()), case);
+                    }
+                    ctx.report.count("columnar:range-lookup-model-compared");
+                }
+            }
         }
     }
     ctx.report.count_n("columnar:columns-checked", expected_present);
@@ -652,6 +740,123 @@ fn parse_rows_text(s: &str) -> Option<Vec<Vec<u64>>> {
     s.split('|').map(parse_nat_list).collect()
 }
 
+fn bytes_column_of(dc: &DynamicColumn) -> Option<BytesColumn> {
+    match dc {
+        DynamicColumn::Bytes(c) => Some(c.clone()),
+        DynamicColumn::Str(c) => Some(c.clone().into()),
+        _ => None,
+    }
+}
+
+fn dict_terms(bc: &BytesColumn) -> Option<Vec<Vec<u8>>> {
+    (0..bc.num_terms() as u64).map(|o| { let mut b = vec![]; match bc.ord_to_bytes(o, &mut b) { Ok(true) => Some(b), _ => None } }).collect()
+}
+
+fn opt_list(s: &str) -> Option<Vec<Option<u64>>> {
+    if s == "-" { return Some(vec![]); }
+    s.split(',').map(|t| if t == "x" { Some(None) } else { t.parse::<u64>().ok().map(Some) }).collect()
+}
+
+/// the model of the dictionary merge (TermMerger k-way merge + term ordinal mapping) against the real
+/// merged Str / Bytes column: its dictionary, and the ordinals every merged row holds
+#[allow(clippy::too_many_arguments)]
+fn dict_merge_model(ctx: &mut Ctx, readers: &[ColumnarReader], name: &str, cat: Cat, stacked: bool, order: &[(usize, usize)], alive_info: &[Option<Vec<usize>>], merged: &DynamicColumn, merged_ords: &[Vec<u64>], what: &str, case: &Value) {
+    let Some(mbc) = bytes_column_of(merged) else { return };
+    let Some(mterms) = dict_terms(&mbc) else { return };
+    let mut cols: Vec<Option<BytesColumn>> = vec![];
+    for r in readers {
+        let h = r.list_columns().unwrap_or_default().into_iter().find(|(n, h)| n == name && cat_of(h.column_type()) == cat).map(|(_, h)| h);
+        cols.push(h.and_then(|h| h.open().ok()).and_then(|dc| bytes_column_of(&dc)));
+    }
+    let mut dicts: Vec<Vec<Vec<u8>>> = vec![];
+    for c in &cols {
+        match c { Some(bc) => { let Some(t) = dict_terms(bc) else { return }; dicts.push(t) } None => dicts.push(vec![]) }
+    }
+    if dicts.iter().map(|d| d.len()).sum::<usize>() > 1200 { return; }
+    let universe: Vec<Vec<u8>> = dicts.iter().flatten().cloned().collect::<BTreeSet<_>>().into_iter().collect();
+    let rank = |t: &Vec<u8>| universe.binary_search(t).ok().map(|i| i as u64);
+    let dict_txt: Vec<String> = dicts.iter().map(|d| nat_list(&d.iter().map(|t| rank(t).unwrap()).collect::<Vec<_>>())).collect();
+    // the terms a surviving row uses, where the merge was given an alive bitset
+    let used_txt: Vec<String> = cols.iter().enumerate().map(|(s, c)| match (c, &alive_info[s]) {
+        (Some(bc), Some(alive)) => {
+            let u: BTreeSet<u64> = alive.iter().flat_map(|&r| bc.term_ords(r as u32).collect::<Vec<_>>()).collect();
+            nat_list(&u.into_iter().collect::<Vec<_>>())
+        }
+        _ => "*".to_string(),
+    }).collect();
+    let ask = |ctx: &mut Ctx, used: &[String]| -> Option<(Vec<u64>, Vec<Vec<Option<u64>>>)> {
+        let resp = ctx.model.ask(&format!("C08 dictmerge {} {}", used.join("/"), dict_txt.join("/")));
+        let (m, maps) = resp.split_once(';')?;
+        Some((parse_nat_list(m)?, maps.split('/').map(opt_list).collect::<Option<Vec<_>>>()?))
+    };
+    let Some((model_merged, model_maps)) = ask(ctx, &used_txt) else {
+        modelv(ctx, "C08:dict-merge-model", format!("{what}: the model refused the dictionary merge"), case);
+        return;
+    };
+    ctx.report.count("merge:dict-model-compared");
+    if used_txt.iter().any(|u| u != "*") { ctx.report.count("merge:dict-model-with-unused-terms"); }
+    let real_merged: Option<Vec<u64>> = mterms.iter().map(|t| rank(t)).collect();
+    if real_merged.as_ref() != Some(&model_merged) {
+        modelv(ctx, "C08:dict-merge-dictionary", format!("{what}: merged dictionary {real_merged:?} (term ranks), the model's {model_merged:?}"), case);
+        return;
+    }
+    for (i, &(s, r)) in order.iter().enumerate() {
+        let exp: Option<Vec<u64>> = match &cols[s] {
+            Some(bc) => bc.term_ords(r as u32).map(|o| model_maps.get(s).and_then(|m| m.get(o as usize).copied().flatten())).collect(),
+            None => Some(vec![]),
+        };
+        if exp.as_ref() != Some(&merged_ords[i]) {
+            modelv(ctx, "C08:dict-merge-remap", format!("{what}: merged row {i} (segment {s} row {r}) holds ordinals {:?}, the model's remap gives {exp:?}", merged_ords[i]), case);
+            return;
+        }
+    }
+    // the whole merged column as the model builds it (dictionary, index, remapped ordinals)
+    if order.len() <= 400 && readers.iter().map(|r| r.num_docs() as usize).sum::<usize>() <= 800 {
+        let ins_txt: Vec<String> = cols.iter().zip(readers).map(|(c, r)| match c {
+            Some(bc) => rows_text(&(0..r.num_docs()).map(|d| bc.term_ords(d).collect::<Vec<u64>>()).collect::<Vec<_>>()),
+            None => format!("~{}", r.num_docs()),
+        }).collect();
+        let o = if order.is_empty() { "-".to_string() } else { order.iter().map(|(s, r)| format!("{s}:{r}")).collect::<Vec<_>>().join(",") };
+        let resp = ctx.model.ask(&format!("C08 dictshuffle {} {o} {} {}", used_txt.join("/"), dict_txt.join("/"), ins_txt.join("/")));
+        let parsed = resp.split_once(';').and_then(|(m, rows)| Some((parse_nat_list(m)?, parse_rows_text(rows)?)));
+        if parsed != Some((model_merged.clone(), merged_ords.to_vec())) {
+            modelv(ctx, "C08:dict-merge-column", format!("{what}: the model's merged dictionary column differs from the real one"), case);
+            return;
+        }
+        ctx.report.count("merge:dict-column-compared");
+        // the same with the term bitsets computed by the model from the alive rows (compute_term_bitset)
+        let alive_txt: Vec<String> = alive_info.iter().map(|a| match a { Some(rows) => nat_list(&rows.iter().map(|&r| r as u64).collect::<Vec<_>>()), None => "*".to_string() }).collect();
+        let resp = ctx.model.ask(&format!("C08 dictalive {} {o} {} {}", alive_txt.join("/"), dict_txt.join("/"), ins_txt.join("/")));
+        let parsed = resp.split_once(';').and_then(|(m, rows)| Some((parse_nat_list(m)?, parse_rows_text(rows)?)));
+        if parsed != Some((model_merged.clone(), merged_ords.to_vec())) {
+            modelv(ctx, "C08:dict-merge-term-bitset", format!("{what}: with the model's term bitsets the merged dictionary column differs from the real one"), case);
+            return;
+        }
+        ctx.report.count("merge:dict-alive-compared");
+        if stacked {
+            let resp = ctx.model.ask(&format!("C08 dictstack {} {}", dict_txt.join("/"), ins_txt.join("/")));
+            let parsed = resp.split_once(';').and_then(|(m, rows)| Some((parse_nat_list(m)?, parse_rows_text(rows)?)));
+            if parsed != Some((model_merged.clone(), merged_ords.to_vec())) {
+                modelv(ctx, "C08:dict-merge-stack", format!("{what}: the model's stacked dictionary column differs from the real one"), case);
+                return;
+            }
+            ctx.report.count("merge:dict-stack-compared");
+        }
+    }
+    // the public all-terms mapping (index sorting uses it): every input present
+    if cols.iter().all(|c| c.is_some()) {
+        let present: Vec<BytesColumn> = cols.iter().flatten().cloned().collect();
+        let all: Vec<String> = present.iter().map(|_| "*".to_string()).collect();
+        if let (Ok(real), Some((_, maps))) = (tantivy_columnar::compute_merged_term_ord_mapping(&present), ask(ctx, &all)) {
+            let real: Vec<Vec<Option<u64>>> = real.into_iter().map(|m| m.into_iter().map(Some).collect()).collect();
+            if real != maps {
+                modelv(ctx, "C08:dict-merge-mapping", format!("{what}: compute_merged_term_ord_mapping {real:?}, the model's {maps:?}"), case);
+            }
+            ctx.report.count("merge:dict-mapping-compared");
+        }
+    }
+}
+
 pub fn case_merge(ctx: &mut Ctx, seed: u64, case: &Value) {
     let mut rng = Rng(seed);
     let k = 1 + rng.usize_below(4);
@@ -681,6 +886,8 @@ pub fn case_merge(ctx: &mut Ctx, seed: u64, case: &Value) {
     let shuffled = rng.chance(3, 5);
     let mut order: Vec<(usize, usize)> = vec![];
     let mut any_delete = false;
+    // per input: the alive rows handed to the merge as a bitset (None: no bitset, every term is kept)
+    let mut alive_info: Vec<Option<Vec<usize>>> = vec![None; k];
     let merge_order: MergeRowOrder = if !shuffled {
         for (s, (nd, _)) in inputs.iter().enumerate() { for r in 0..*nd { order.push((s, r)); } }
         StackMergeOrder::stack(&reader_refs).into()
@@ -693,6 +900,7 @@ pub fn case_merge(ctx: &mut Ctx, seed: u64, case: &Value) {
             let alive = if mode == 4 && *nd > 0 { vec![rng.usize_below(*nd)] } else { alive };
             if alive.len() != *nd { any_delete = true; }
             alive_sets.push(if alive.len() == *nd && rng.chance(1, 2) { None } else { Some(read_only_bitset(*nd as u32, &alive.iter().map(|&a| a as u32).collect::<Vec<_>>())) });
+            if alive_sets.last().unwrap().is_some() { alive_info[per_seg.len()] = Some(alive.clone()); }
             per_seg.push(alive);
         }
         match rng.below(3) {
@@ -772,6 +980,9 @@ pub fn case_merge(ctx: &mut Ctx, seed: u64, case: &Value) {
         };
         let dc = match h.open() { Ok(d) => d, Err(e) => { oracle(ctx, "C08:column-open", format!("{what}: open failed: {e}"), case); continue; } };
         let u64rows = check_dynamic(ctx, &mut rng, Some(h), &dc, &exp_t, &what, case);
+        if let (Some(rows), true) = (u64rows.as_ref(), order.len() <= 1500 && matches!(cat, Cat::Bytes | Cat::Str)) {
+            dict_merge_model(ctx, &readers, name, *cat, !shuffled, &order, &alive_info, &dc, rows, &what, case);
+        }
         // model row mapping on u64-valued groups (merged values as the model's opaque values)
         if let (Some(rows), true) = (u64rows, order.len() <= 700 && !matches!(cat, Cat::Ip | Cat::Bytes | Cat::Str)) {
             // inputs as the model sees them: rows of each input in the merged type's u64 image
